@@ -33,6 +33,10 @@ def run(ck):
     ck.run_rule(h3_pure)
     ck.run_rule(h4_keys)
     ck.run_rule(h6_single_source)
+    # "consumers keyed by the hash": the table answers a probe only under equality of the full 64-bit key and routes by it (C15's T1, T2)
+    from .c15 import t1_key_check, t2_routing
+    ck.run_rule(t1_key_check)
+    ck.run_rule(t2_routing)
 
 
 # -------------------------------------------------------------------------------------------------
